@@ -28,7 +28,16 @@ type PathSegment string
 
 // TODO add support for "-" - the "last" item designation
 func (ps PathSegment) IsNumeric() (int, bool) {
-	i, err := strconv.Atoi(string(ps))
+	s := string(ps)
+	if s == "" || (len(s) > 1 && s[0] == '0') {
+		return 0, false
+	}
+	for _, c := range s {
+		if c < '0' || c > '9' {
+			return 0, false
+		}
+	}
+	i, err := strconv.Atoi(s)
 	return i, err == nil
 }
 
@@ -156,6 +165,8 @@ func (p Path) Eval(target dom.Container) (dom.NodeList, dom.Node) {
 					// list index out of bounds
 					return res, nil
 				}
+			} else {
+				return res, nil
 			}
 		} else
 		// regular child within container
